@@ -20,7 +20,7 @@ B=$WT/_b; OMP=""
 if [ "\$3" = "omp" ]; then B=$WT/_bomp; OMP=-fopenmp; fi
 REG=\$(find \$B/src/CMakeFiles/stir_registries.dir -name '*.o')
 LIBS=\$(find \$B/src -name '*.a')
-/usr/bin/c++ -I$WT/src/include -I\$B/src/include -w -O2 -DNDEBUG -std=gnu++17 \$OMP "\$1" -o "\$2" \$REG -Wl,--start-group \$LIBS -Wl,--end-group \$OMP -lpthread -ldl
+/usr/bin/c++ -I$WT/src/include -I\$B/src/include -w -O2 -DNDEBUG -std=gnu++17 \$OMP "\$1" -o "\$2" \$REG -Wl,--start-group \$LIBS -Wl,--end-group \$OMP -lpthread -ldl \$(grep -E "^HDF5_(CXX|C)_LIBRARY_(hdf5_cpp|hdf5):" \$B/CMakeCache.txt | cut -d= -f2 | tr "\\n" " ") -lz
 EOS
 chmod +x /tmp/seedout_$P/build_demo.sh
 echo "worktree $WT ready"
